@@ -699,6 +699,13 @@ class Explorer:
             else:
                 if self._model is None:
                     r = self.check()
+                    if r not in ("sat", "unsat"):
+                        # the short branch timeout can be hit on a loaded machine: one retry with the long (discharge) timeout
+                        self.s.set("timeout", self.timeout_ms)
+                        try:
+                            r = self.check()
+                        finally:
+                            self.s.set("timeout", self.branch_timeout_ms)
                     if r == "unsat":
                         raise Infeasible()
                     if r != "sat":
